@@ -120,19 +120,20 @@ def run(ctx):
             except Exception: pass
             a = make_sim(kind, seed); a.run(); ref = {k: hashlib.sha1(v).hexdigest() for k, v in fingerprint(a).items()}
             users = sorted(module_classes(a) & gclasses)
-            env = dict(os.environ, PYTHONHASHSEED=str(rng.randrange(1, 1000)), PYTHONPATH='/repo:' + VERIF)
-            pr = subprocess.run([sys.executable, '-c', WORKER % VERIF, kind, str(seed)], capture_output=True, text=True, env=env, timeout=600)
-            line = [l for l in pr.stdout.splitlines() if l.startswith('FP ')]
-            ctx.count((kind, seed, 'worker'), nontrivial=True); ctx.dist('history worker process, other PYTHONHASHSEED')
-            if not line:
-                viol(f'{kind}: the worker process failed: {pr.stderr[-300:]}', dict(config=kind, seed=seed))
-            else:
-                fp = json.loads(line[0][3:])
-                d = [k for k in ref if fp.get(k) != ref[k]]
-                if d:
-                    w = dict(config=kind, seed=seed, history='worker', first_difference=d[0])
-                    if users: w['finding_key'] = 'global-generator:' + '+'.join(users)
-                    viol(f'{kind} (seed {seed}): a fresh worker process with PYTHONHASHSEED={env["PYTHONHASHSEED"]} gives a different simulation (first difference: {d[0]})', w)
+            for hs in ([rng.randrange(1, 1000)] if kind != 'sis_tx2' else [1, 2, 3, 5]):      # several hash seeds where string-keyed tables are iterated
+                env = dict(os.environ, PYTHONHASHSEED=str(hs), PYTHONPATH='/repo:' + VERIF)
+                pr = subprocess.run([sys.executable, '-c', WORKER % VERIF, kind, str(seed)], capture_output=True, text=True, env=env, timeout=600)
+                line = [l for l in pr.stdout.splitlines() if l.startswith('FP ')]
+                ctx.count((kind, seed, 'worker', hs), nontrivial=True); ctx.dist('history worker process, other PYTHONHASHSEED')
+                if not line:
+                    viol(f'{kind}: the worker process failed: {pr.stderr[-300:]}', dict(config=kind, seed=seed))
+                else:
+                    fp = json.loads(line[0][3:])
+                    d = [k for k in ref if fp.get(k) != ref[k]]
+                    if d:
+                        w = dict(config=kind, seed=seed, history='worker', first_difference=d[0])
+                        if users: w['finding_key'] = 'global-generator:' + '+'.join(users)
+                        viol(f'{kind} (seed {seed}): a fresh worker process with PYTHONHASHSEED={env["PYTHONHASHSEED"]} gives a different simulation (first difference: {d[0]})', w)
     bad = ctx.coq_mismatches('c01seeds', IMPORTS, 'Z * Z * Z', sterms, 'Definition ok (c : Z * Z * Z) : bool := let \'(o, b, s) := c in Z.eqb (seed_gen o b) s.', shard=500)
     for j in bad[:3]: ctx.broke('correspondence', 'a distribution\'s seed differs from seed_gen(sha(trace) mod 1e9, base seed)', repr(smeta[j]))
     ctx.cov['replayed_in_coq'] = dict(dist_seeds=len(sterms))
